@@ -740,3 +740,17 @@ Definition built_clause_b (tr : list event) (es : estate) : bool :=
 Definition no_sync (ops : list op) : bool :=
   forallb (fun o => match o with OStartSync _ | OFinishSync _ => false | _ => true end) ops.
 
+
+(* ================================================================== C21 vocabulary *)
+(* executing the accepted chain from the sync target [t] to the tip *)
+Fixpoint after (t : N) (l : list N) : list N :=
+  match l with
+  | [] => []
+  | x :: r => if x =? t then r else after t r
+  end.
+Fixpoint exec_chain (prev : N) (l : list N) : list event :=
+  match l with
+  | [] => []
+  | b :: r => [EVerify prev b true; NVerified b; EAccept (Some prev) b; NAccepted b] ++ exec_chain b r
+  end.
+
